@@ -111,6 +111,15 @@ type queueWrap struct {
 	ack.Queue
 	queued *int64 // publishes handed to a worker (shared with ppWrap)
 	relJob int64  // of those, the ones a PUBREL released
+	pend   int64  // entries awaiting an acknowledgement right now
+}
+
+func (q *queueWrap) Ack(prefix string, pkt packet.Packet) error {
+	err := q.Queue.Ack(prefix, pkt)
+	if err == nil {
+		atomic.AddInt64(&q.pend, -1)
+	}
+	return err
 }
 
 func (q *queueWrap) Expire(now time.Time) {}
@@ -119,17 +128,23 @@ func (q *queueWrap) Force(now time.Time)  { q.Queue.Expire(now) }
 // Insert: the callback of an inbound QoS 2 entry hands the stored publish to a worker when the
 // PUBREL arrives; that hand-off happens inside the callback, so it is counted when it returns.
 func (q *queueWrap) Insert(prefix string, pkt packet.Packet, deadline time.Time, cb ack.Callback) error {
-	if strings.HasSuffix(prefix, "/in") {
-		inner := cb
-		cb = func(expired bool, stored, received packet.Packet) {
-			inner(expired, stored, received)
-			if !expired {
-				atomic.AddInt64(q.queued, 1)
-				atomic.AddInt64(&q.relJob, 1)
-			}
+	inbound := strings.HasSuffix(prefix, "/in")
+	inner := cb
+	cb = func(expired bool, stored, received packet.Packet) {
+		if expired {
+			atomic.AddInt64(&q.pend, -1) // Expire has taken the entry out before calling back
+		}
+		inner(expired, stored, received)
+		if inbound && !expired {
+			atomic.AddInt64(q.queued, 1)
+			atomic.AddInt64(&q.relJob, 1)
 		}
 	}
-	return q.Queue.Insert(prefix, pkt, deadline, cb)
+	err := q.Queue.Insert(prefix, pkt, deadline, cb)
+	if err == nil {
+		atomic.AddInt64(&q.pend, 1)
+	}
+	return err
 }
 
 // ppWrap: the real packet processor; counts the publishes it hands to its workers (PUBLISH at QoS 0/1
